@@ -58,11 +58,12 @@ impl OperationTransformVisitor<'_> {
             return;
         }
 
+        let modified = status == Status::Modified;
         if status != Status::NotModified {
             self.transform_status.status = status;
         }
 
-        if self.transform_status.status == Status::Modified {
+        if modified {
             self.transform_status.telemetry.inc(tag);
         }
     }
